@@ -7,6 +7,7 @@ CONSTANTS
   WrapLen = 2
   ShareLen = 2
   MatchKey = "annotation"
+  ProjScan = "set"
   ClipKey = "uuid"
   ClipValidator = "after"
 CONSTRAINT Export
